@@ -155,6 +155,23 @@ pub fn field_mutations(f: &Frame) -> Vec<Mutation> {
             FKind::DateTime => {
                 set("T3", "datetime=max", 0xFFFF_FFFF, &mut out);
                 set("T3", "datetime=minute60", (cur & !0x3F) | 60, &mut out);
+                set("T3", "datetime=hour24", (cur & !(0x1F << 6)) | (24 << 6), &mut out);
+                set("T3", "datetime=month12", (cur & !(0xF << 20)) | (12 << 20), &mut out);
+                // the day after the last day of the month (zero-based day == days in month), with every weekday
+                let y = 2000 + ((cur >> 24) & 0xFF);
+                let mo = ((cur >> 20) & 0xF).min(11);
+                let leap = (y % 4 == 0 && y % 100 != 0) || y % 400 == 0;
+                let dim = [31u64, if leap { 29 } else { 28 }, 31, 30, 31, 30, 31, 31, 30, 31, 30, 31][mo as usize];
+                for wd in 0..7u64 {
+                    let v = (cur & !(0x3F << 14) & !(0x7 << 11)) | (dim << 14) | (wd << 11);
+                    set("T3", "datetime=day-after-month-end", v, &mut out);
+                }
+                for wd in 0..7u64 {
+                    let v = (cur & !(0x3F << 14) & !(0x7 << 11)) | ((dim - 1) << 14) | (wd << 11);
+                    if v != cur {
+                        set("T3", "datetime=last-day-other-weekday", v, &mut out);
+                    }
+                }
             }
             FKind::PackedGuid => {
                 let mut m = Mutation::base(f, "T8", format!("field#{} {} packed-guid mask 0xff", fi, fld.path));
